@@ -90,7 +90,7 @@ Proof.
   induction ns as [|n ns IH]; intros e L ND H; [auto|].
   unfold delete_files. cbn [fold_left]. fold (delete_files ns (snd (io (ADelete n) e))).
   destruct (io (ADelete n) e) as [ok e1] eqn:Eio. cbn [snd].
-  destruct (io_cases _ _ _ _ Eio) as [(_ & Ed)|(_ & Ed)].
+  destruct (io_cases _ _ _ _ Eio eq_refl) as [(_ & Ed)|(_ & Ed)].
   - destruct (IH e1 L) as (A & B & C).
     + rewrite Ed. apply NoDup_apply. exact ND.
     + rewrite Ed. apply ISs'_delete; assumption.
@@ -110,9 +110,9 @@ Proof.
   - destruct (io _ e) as [ok e1] eqn:Eio. intros [= <- <-].
     pose proof (io_meta_files _ _ _ _ Eio I) as Ef.
     split; [eapply io_meta_frame; eauto; exact I|]. split; [rewrite Ef; exact ND|].
-    destruct (io_cases _ _ _ _ Eio) as [(_ & ->)|(_ & ->)]; reflexivity.
+    destruct (io_cases _ _ _ _ Eio eq_refl) as [(_ & ->)|(_ & ->)]; reflexivity.
   - destruct (io _ e) as [ok e1] eqn:Eio.
-    destruct (io_cases _ _ _ _ Eio) as [(-> & Ed)|(-> & Ed)].
+    destruct (io_cases _ _ _ _ Eio eq_refl) as [(-> & Ed)|(-> & Ed)].
     + intros [= <- <-]. rewrite Ed. split; [apply ISs'_create; assumption|]. split; [apply NoDup_apply; exact ND|reflexivity].
     + destruct (fx_leave (e_fx e)); intros [= <- <-]; cbn [leave_entry e_disk]; rewrite Ed.
       * split; [apply ISs'_create; assumption|]. split; [apply NoDup_apply; exact ND|reflexivity].
@@ -135,13 +135,13 @@ Proof.
   cbn zeta. assert (Hz : ws_index_start tw = 0) by lia.
   destruct (io _ e) as [ok1 e1] eqn:Eio1.
   assert (H1 : ISs' (e_disk e1) L /\ NoDup (map fst (dk_files (e_disk e1))) /\ dk_meta (e_disk e1) = dk_meta (e_disk e)).
-  { destruct (io_cases _ _ _ _ Eio1) as [(_ & Ed)|(_ & Ed)]; rewrite Ed; [|auto].
+  { destruct (io_cases _ _ _ _ Eio1 eq_refl) as [(_ & Ed)|(_ & Ed)]; rewrite Ed; [|auto].
     split; [apply ISs'_write; [apply Ht; exact Hz|exact H]|]. split; [apply NoDup_apply; exact ND|].
     cbn [apply_act]. destruct (lookup _ _); reflexivity. }
   destruct ok1; cbn [negb]; [|intros [= <- <- <-]; exact H1].
   destruct (io _ e1) as [ok2 e2] eqn:Eio2. destruct H1 as (A & B & C).
   assert (H2 : ISs' (e_disk e2) L /\ NoDup (map fst (dk_files (e_disk e2))) /\ dk_meta (e_disk e2) = dk_meta (e_disk e)).
-  { destruct (io_cases _ _ _ _ Eio2) as [(_ & Ed)|(_ & Ed)]; rewrite Ed; [|auto].
+  { destruct (io_cases _ _ _ _ Eio2 eq_refl) as [(_ & Ed)|(_ & Ed)]; rewrite Ed; [|auto].
     split; [apply ISs'_sync; exact A|]. split; [apply NoDup_apply; exact B|].
     rewrite <- C. cbn [apply_act]. destruct (lookup _ _); reflexivity. }
   destruct ok2; cbn [negb]; intros [= <- <- <-]; exact H2.
@@ -163,20 +163,20 @@ Proof.
   set (b := {| pb_ents := []; pb_end := _; pb_seal := _ |}).
   destruct (io _ e) as [ok1 e1] eqn:Eio1.
   assert (H1 : ISs' (e_disk e1) L /\ NoDup (map fst (dk_files (e_disk e1))) /\ dk_meta (e_disk e1) = dk_meta (e_disk e)).
-  { destruct (io_cases _ _ _ _ Eio1) as [(_ & Ed)|(_ & Ed)]; rewrite Ed; [|auto].
+  { destruct (io_cases _ _ _ _ Eio1 eq_refl) as [(_ & Ed)|(_ & Ed)]; rewrite Ed; [|auto].
     split; [apply ISs'_write; [apply Ht; exact Hz|exact H]|]. split; [apply NoDup_apply; exact ND|].
     cbn [apply_act]. destruct (lookup _ _); reflexivity. }
   destruct ok1; cbn [negb]; [|intros [= <- <- <-]; destruct H1 as (A & B & C); split; [exact A|]; split; [exact B|]; split; [exact C|discriminate]].
   destruct (io _ e1) as [ok2 e2] eqn:Eio2. destruct H1 as (A & B & C).
   assert (H2 : ISs' (e_disk e2) L /\ NoDup (map fst (dk_files (e_disk e2))) /\ dk_meta (e_disk e2) = dk_meta (e_disk e)).
-  { destruct (io_cases _ _ _ _ Eio2) as [(_ & Ed)|(_ & Ed)]; rewrite Ed; [|auto].
+  { destruct (io_cases _ _ _ _ Eio2 eq_refl) as [(_ & Ed)|(_ & Ed)]; rewrite Ed; [|auto].
     split; [apply ISs'_sync; exact A|]. split; [apply NoDup_apply; exact B|].
     rewrite <- C. cbn [apply_act]. destruct (lookup _ _); reflexivity. }
   destruct ok2; cbn [negb]; intros [= <- <- <-]; destruct H2 as (A2 & B2 & C2);
     (split; [exact A2|]; split; [exact B2|]; split; [exact C2|]); [|discriminate].
   intros _. right. cbn [ws_index_start ws_name]. split; [destruct (ws_hdr tw); lia|]. split; [reflexivity|].
-  destruct (io_cases _ _ _ _ Eio1) as [(_ & Ed1)|(K & _)]; [|discriminate].
-  destruct (io_cases _ _ _ _ Eio2) as [(_ & Ed2)|(K & _)]; [|discriminate].
+  destruct (io_cases _ _ _ _ Eio1 eq_refl) as [(_ & Ed1)|(K & _)]; [|discriminate].
+  destruct (io_cases _ _ _ _ Eio2 eq_refl) as [(_ & Ed2)|(K & _)]; [|discriminate].
   rewrite Ed2, Ed1. intros f' Ef'.
   destruct (lookup (ws_name tw) (dk_files (e_disk e))) as [f|] eqn:Ef.
   - destruct (lookup_write_eq (e_disk e) (ws_name tw) (ws_off tw) ((if ws_hdr tw then 32 else 0) + index_frame_size (ws_n tw) + 8) b f Ef)
@@ -206,9 +206,13 @@ Proof.
   set (a := ACommit {| ps_next_id := tx_next_id t; ps_segs := tx_segs t |}).
   destruct (io a e) as [ok e1] eqn:Eio.
   pose proof (io_meta_files _ _ _ _ Eio I) as Ef1.
-  destruct (io_cases _ _ _ _ Eio) as [(-> & Ed)|(-> & Ed)]; cbn [negb].
-  2:{ intros [= <- <- <- <-]. rewrite Ed. split; [apply ISs'_app; auto|]. split; [exact ND|]. left.
-      repeat split; auto. }
+  destruct (io_cases3 _ _ _ _ Eio) as [(-> & Ed)|[(-> & Ed)|(-> & _ & Ed)]]; cbn [negb].
+  2:{ intros [= <- <- <- <-]. cbn [st_segs st_tail st_next_id st_failed]. rewrite Ed.
+      split; [apply ISs'_app; auto|]. split; [exact ND|]. left. auto. }
+  2:{ (* the commit is reported as failed and found applied *)
+      intros [= <- <- <- <-]. cbn [st_segs st_tail st_next_id st_failed].
+      assert (Em1 : meta_segs (e_disk e1) = tx_segs t) by (rewrite Ed; reflexivity).
+      rewrite Em1. split; [apply ISs'_app; split; eapply ISs'_files; eauto|]. split; [rewrite Ef1; exact ND|]. left. auto. }
   assert (Em1 : meta_segs (e_disk e1) = tx_segs t) by (rewrite Ed; reflexivity).
   assert (ND1 : NoDup (map fst (dk_files (e_disk e1)))) by (rewrite Ef1; exact ND).
   assert (HA1 : ISs' (e_disk e1) (st_segs w ++ tx_segs t)).
